@@ -1597,3 +1597,10 @@ class ApplicationEntity:
         invalid = [ii for ii in contexts if not isinstance(ii, PresentationContext)]
         if invalid:
             raise ValueError("'contexts' must be a list of PresentationContext items")
+
+        # PS3.8 9.3.2.2: a proposed context has one or more transfer syntaxes
+        if any(not cx.transfer_syntax for cx in contexts):
+            raise ValueError(
+                "All requested presentation contexts must have at least one "
+                "transfer syntax"
+            )
